@@ -1,5 +1,6 @@
 mod alloc;
 mod app;
+mod asim;
 mod cfgs;
 mod chooser;
 mod dgram;
